@@ -213,6 +213,18 @@ class Driver(object):
                                 'restartHookOn': [], 'shutdownOn': [], 'restartHookFile': None}
         j.repeatInterval = lambda: cfg['interval'] / 1000.0
         j.producerInstances = [prod] if cfg['has_prod'] else []
+        if cfg['has_prod'] and cfg.get('extra_prod'):
+            # a second producer of the same kind whose (old) output has been there since before the observer started
+            # and never changes: "every producer has output" and "some producer has new output" are then decided by
+            # the first producer alone, exactly as in the one-producer model, whatever the order of the list
+            prod_b = _Obj()
+            prod_b.stageIndex = prod.stageIndex
+            prod_b.isRepeat = prod.isRepeat
+            prod_b.identification = 'stage0.prodB'
+            wd_b = types.SimpleNamespace(output=['old.dat'], path='/nonexistent/verif_c13/prodB',
+                                         outputSinceDate=lambda date: [])
+            prod_b.workingDirectory = wd_b
+            j.producerInstances = [prod_b, prod] if cfg['extra_prod'] == 'first' else [prod, prod_b]
         var = {}
         if cfg['has_delay']:
             var['kill-after-producers-done-delay'] = '30'
